@@ -177,6 +177,58 @@ def run_ext(run):
                     run.oracle_fail("copy_existing", case, res, "copy_existing")
                 shutil.rmtree(d, ignore_errors=True)
                 shutil.rmtree(d2, ignore_errors=True)
+            # ---- saving over an earlier save of the same kind with a different structure (the directory holds stale files)
+            from tensordict import LazyStackedTensorDict
+
+            def lazy(n, v, nested):
+                ls = LazyStackedTensorDict(*[TensorDict({"a": torch.full((2,), float(i) + v), "n": {"x": torch.full((1,), i + int(v))}}, []) for i in range(n)], stack_dim=0)
+                return TensorDict({"l": ls, "t": torch.arange(float(n))}, [n]) if nested else ls
+
+            for it in range(6 if quick else 30):
+                n1, n2 = rng.randint(1, 4), rng.randint(1, 4)
+                nested = bool(it % 2)
+                d = root / f"rs{it}"
+                case = {"kind": "lazy-nested" if nested else "lazy", "members_first": n1, "members_second": n2}
+                run.case(("resave-ext", it, str(case)))
+                try:
+                    with time_limit(180):
+                        lazy(n1, 0.0, nested).memmap(d, num_threads=rng.choice([0, 2]))
+                        second = lazy(n2, 10.0, nested)
+                        second.memmap(d, num_threads=rng.choice([0, 2]))
+                        diff = first_diff(canon(second, **OPTS), canon(TensorDict.load_memmap(d), **OPTS))
+                except TimeoutError as e:
+                    raise Infra(f"memmap timed out: {e}")
+                except Exception as e:  # noqa: BLE001
+                    diff = f"raised {type(e).__name__}: {str(e)[:150]}"
+                if diff is None:
+                    run.oracle_ok("load_equals_saved(existing dir, ext)")
+                else:
+                    run.oracle_fail("load_equals_saved(existing dir, ext)", case, f"a lazy stack of {n2} members saved over one of {n1} members loads as: {diff}",
+                                    "resave:lazy:" + ("fewer" if n2 < n1 else "other"))
+                shutil.rmtree(d, ignore_errors=True)
+            # non-tensor payloads: one that is pickled (not json-serialisable) replaced by one that is written in meta.json, and back
+            from tensordict import NonTensorData
+            payloads = [slice(1, 2), "text", 3 + 4j, "other", [1, "a"]]
+            for it in range(4 if quick else 20):
+                p1, p2 = [(slice(1, 2), "text"), ("text", slice(1, 2))][it] if it < 2 else rng.sample(payloads, 2)
+                d = root / f"rp{it}"
+                case = {"kind": "nontensor-payload", "first": repr(p1), "second": repr(p2)}
+                run.case(("resave-payload", it, str(case)))
+                try:
+                    with time_limit(180):
+                        TensorDict({"a": torch.zeros(2), "s": NonTensorData(p1, batch_size=[2])}, [2]).memmap(d, num_threads=rng.choice([0, 2]))
+                        TensorDict({"a": torch.ones(2), "s": NonTensorData(p2, batch_size=[2])}, [2]).memmap(d, num_threads=rng.choice([0, 2]))
+                        got = TensorDict.load_memmap(d).get("s").data
+                    diff = None if repr(got) == repr(p2) else f"payload {got!r} (the one of the former save) instead of {p2!r}"
+                except TimeoutError as e:
+                    raise Infra(f"memmap timed out: {e}")
+                except Exception as e:  # noqa: BLE001
+                    diff = f"raised {type(e).__name__}: {str(e)[:150]}"
+                if diff is None:
+                    run.oracle_ok("load_equals_saved(existing dir, ext)")
+                else:
+                    run.oracle_fail("load_equals_saved(existing dir, ext)", case, f"non-tensor entry saved over a former save loads with {diff}", "resave:payload")
+                shutil.rmtree(d, ignore_errors=True)
             # ---- excluded points of PathSafeKeys, run on the real code
             excluded = {
                 "slash-key-beside-node": lambda: TensorDict({"a": {"b": torch.ones(3)}, "a/b": torch.zeros(3)}, [3]),
